@@ -2,9 +2,9 @@
 C09.R1-R4, C10.R1-R3, C11.R1 R2 R4."""
 from engine import rule
 from roles import Roles, SYS, sys_calls, SYSTEM_MUTATORS, SYSTEM_OBSERVERS, JOIN
-from common import WorkRoles, effects, call_effects, mutating
+from common import remembered_entry_call, WorkRoles, effects, call_effects, mutating
 from strings import format_of_operand, shape
-from lib.mir import AnalysisError, fmt_origin
+from lib.mir import erase_generics, AnalysisError, fmt_origin
 
 BACKUP_T = "cache::SysCache::<SystemType>::back_up_file_with_ticket"
 BACKUP = "cache::SysCache::<SystemType>::back_up_file"
@@ -465,6 +465,33 @@ def _plan_roots(P, e, lp):
                 work.extend(e.origins_of_operand(cs.args[0]))
             elif tg and "ChannelPack" in tg[0]:
                 work.extend(e.origins_of_operand(cs.args[0]))
+            elif erase_generics(cs.path) in ("std::vec::Vec::new", "std::vec::Vec::with_capacity"):
+                # a table built right here (the channel wiring written out in the entry point):
+                # what it holds is what was pushed into it
+                old_flag, old_cache = getattr(e, "content_flow", False), e._origin_cache
+                e.content_flow, e._origin_cache = True, {}
+                try:
+                    vals = e._vector_contents({(root,)}, (), frozenset())
+                finally:
+                    e.content_flow, e._origin_cache = old_flag, old_cache
+                if vals:
+                    work.extend(vals)
+                else:
+                    out.add(root)
+            else:
+                out.add(root)
+        elif root[0] == "agg" and root[4] == "tuple" and len(o) == 1:
+            # (node, senders, receivers): the plan element is the part that is not a channel end
+            rv = e.blocks[root[2]]["stmts"][root[3]]["rv"]
+            parts = []
+            for x in rv["ops"]:
+                ty = e.local_ty(x["place"]["local"])["s"] if x["k"] in ("copy", "move") else ""
+                if "Sender<" in ty or "Receiver<" in ty:
+                    continue
+                parts.append(x)
+            if parts:
+                for x in parts:
+                    work.extend(e.origins_of_operand(x))
             else:
                 out.add(root)
         else:
@@ -922,14 +949,14 @@ def c10_r3(ctx):
             for t in to:
                 for (fid, lo) in ctx.P.lift(f, t):
                     ctx.inst("restored ticket comes from", "%s: %s" % (fid, fmt_origin(lo)))
-                    if lo[0][0] == "call" and lo[0][3] == "blob::FileStateVec::get_info" and lo[-1] == ("field", "ticket"):
+                    if remembered_entry_call(ctx.P, lo) and lo[-1] == ("field", "ticket"):
                         ctx.ok()
                     else:
                         ctx.viol((fid, "restore-foreign-ticket"), "a target is restored from the cache entry named by something other than the remembered hash of the history lookup (derives from %s): after a clean the wrong version - or nothing - is brought back" % fmt_origin(lo), c.where)
         for d in f.calls_to(DL_RESTORE):
             for t in f.origins_of_operand(d.args[1]):
                 for (fid, lo) in ctx.P.lift(f, t):
-                    if not (lo[0][0] == "call" and lo[0][3] == "blob::FileStateVec::get_info" and lo[-1] == ("field", "ticket")):
+                    if not (remembered_entry_call(ctx.P, lo) and lo[-1] == ("field", "ticket")):
                         ctx.viol((fid, "download-foreign-ticket"), "a target is downloaded under a name other than the remembered hash (derives from %s)" % fmt_origin(lo), d.where)
         for d in f.calls_to(DL_RESTORE):
             done = f.edges_of_call_variant(d, "Done")
